@@ -3,10 +3,11 @@ package main
 // Execution of packet-level operations against the real code (in-process).
 
 import (
-	"reflect"
 	"fmt"
+	"reflect"
 	"strconv"
 	"strings"
+	"sync"
 
 	"github.com/aldas/go-modbus-client/packet"
 )
@@ -23,7 +24,22 @@ func wrapReq[T any](f func([]byte) (T, error)) parseFn {
 			}
 			return s
 		}
-		return "ok " + reqStr(any(v))
+		if isNilValue(any(v)) {
+			return "NIL-VALUE-NIL-ERROR"
+		}
+		out := "ok " + reqStr(any(v))
+		// a decoded request is a value of its own: what happens to the receive buffer afterwards (the server's assembler
+		// and the client reuse theirs) does not reach into it
+		saved := append([]byte{}, d[:cap(d)]...)
+		full := d[:cap(d)]
+		for i := range full {
+			full[i] ^= 0xFF
+		}
+		if again := "ok " + reqStr(any(v)); again != out {
+			out += " ALIASES-INPUT"
+		}
+		copy(full, saved)
+		return out
 	}
 }
 
@@ -36,6 +52,9 @@ func wrapResp[T any](f func([]byte) (T, error)) parseFn {
 				s += " VALUE-NONNIL"
 			}
 			return s
+		}
+		if isNilValue(any(v)) {
+			return "NIL-VALUE-NIL-ERROR"
 		}
 		return "ok " + respStr(any(v))
 	}
@@ -61,8 +80,9 @@ var parseEntries = map[string]parseFn{
 		n, err := packet.LooksLikeModbusTCP(d, true)
 		return fmt.Sprintf("n=%d %s", n, errStr(err))
 	},
-	"aserrT": func(d []byte) string { return errStr(packet.AsTCPErrorPacket(d)) },
-	"aserrR": func(d []byte) string { return errStr(packet.AsRTUErrorPacket(d)) },
+	"aserrT":  func(d []byte) string { return errStr(packet.AsTCPErrorPacket(d)) },
+	"aserrR":  func(d []byte) string { return errStr(packet.AsRTUErrorPacket(d)) },
+	"aserrRC": func(d []byte) string { return errStr(packet.AsRTUErrorPacketWithCRC(d)) },
 
 	"reqT":   wrapReq(packet.ParseTCPRequest),
 	"reqR":   wrapReq(packet.ParseRTURequest),
@@ -143,13 +163,41 @@ func withSpare(data, spare []byte) []byte {
 	return buf[:len(data):len(buf)]
 }
 
+// the two exported sentinel errors are pointers to structs: a parser that fills one of them in changes what every later
+// caller sees
+var (
+	pristineTooShort = *packet.ErrTCPDataTooShort
+	pristineNotTCP   = *packet.ErrIsNotTCPPacket
+)
+
+var parseMu sync.Mutex
+
+func sentinelsTouched() bool {
+	touched := *packet.ErrTCPDataTooShort != pristineTooShort || *packet.ErrIsNotTCPPacket != pristineNotTCP
+	if touched {
+		*packet.ErrTCPDataTooShort = pristineTooShort
+		*packet.ErrIsNotTCPPacket = pristineNotTCP
+	}
+	return touched
+}
+
 func execParse(entry string, data, spare []byte) string {
 	f, ok := parseEntries[entry]
 	if !ok {
 		return "NOENTRY"
 	}
+	// (the sentinels are process wide and the shards run in one process: one parse operation at a time, so that the
+	// operation that touched them is the one that is blamed)
+	parseMu.Lock()
+	defer parseMu.Unlock()
 	a := guarded(func() string { return f(withSpare(data, nil)) })
+	if sentinelsTouched() {
+		a += " SENTINEL-MUTATED"
+	}
 	b := guarded(func() string { return f(withSpare(data, spare)) })
+	if sentinelsTouched() {
+		b += " SENTINEL-MUTATED"
+	}
 	return a + " || " + b
 }
 
@@ -337,8 +385,34 @@ func construct(a newArgs) (packet.Request, error) {
 	return nil, fmt.Errorf("no constructor for function %d", a.fc)
 }
 
+// twin returns the arguments of a near relative of a request: same function, address and quantity, other unit and
+// transaction id (and the other coil state / other payload bytes)
+func twin(a newArgs, k int) newArgs {
+	t := a
+	t.unit ^= uint8(0x55 + k)
+	t.tid ^= uint16(0x0F0F + k)
+	if k > 0 {
+		t.addr ^= 0x00FF
+		t.state = !t.state
+		t.data = append([]byte{}, a.data...)
+		for i := range t.data {
+			t.data[i] ^= 0xFF
+		}
+		t.coils = append([]bool{}, a.coils...)
+		for i := range t.coils {
+			t.coils[i] = !t.coils[i]
+		}
+	}
+	return t
+}
+
 func execNewreq(ts []string) string {
 	a := parseNewArgs(ts)
+	// a request is a value of its own: what was constructed and encoded before it, and what is encoded after it, leaves no
+	// trace in its frame (a relative is built and encoded first, another one afterwards)
+	if r0, err := construct(twin(a, 0)); err == nil {
+		_ = r0.Bytes()
+	}
 	r, err := construct(a)
 	if err != nil {
 		s := errStr(err)
@@ -347,7 +421,19 @@ func execNewreq(ts []string) string {
 		}
 		return s
 	}
-	return fmt.Sprintf("ok bytes=%s explen=%d", hx(r.Bytes()), r.ExpectedResponseLength())
+	frame := r.Bytes()
+	first := hx(frame)
+	out := fmt.Sprintf("ok bytes=%s explen=%d", first, r.ExpectedResponseLength())
+	if r2, err := construct(twin(a, 1)); err == nil {
+		_ = r2.Bytes()
+	}
+	if hx(frame) != first {
+		return "FRAME-REWRITTEN-BY-LATER-CALL " + out
+	}
+	if again := hx(r.Bytes()); again != first {
+		return "ENCODING-NOT-STABLE second=" + again + " " + out
+	}
+	return out
 }
 
 func rtEntries(framing string, fc uint8) [][2]string {
@@ -422,12 +508,20 @@ func execHdr(h, body []byte) string {
 func execIscoil(fc string, data []byte, start, addr uint16) string {
 	var v bool
 	var err error
+	// the byte count FIELD of a response value built by hand need not agree with the payload: the payload is the data
+	bl := uint8(len(data))
+	switch variantOf(hx(data)+fmt.Sprint(start, addr)) % 5 {
+	case 0:
+		bl = 0
+	case 1:
+		bl = uint8(len(data) / 2)
+	}
 	if fc == "1" {
-		v, err = packet.ReadCoilsResponse{UnitID: 1, CoilsByteLength: uint8(len(data)), Data: data}.IsCoilSet(start, addr)
+		v, err = packet.ReadCoilsResponse{UnitID: 1, CoilsByteLength: bl, Data: data}.IsCoilSet(start, addr)
 	} else if fc == "2" {
-		v, err = packet.ReadDiscreteInputsResponse{UnitID: 1, InputsByteLength: uint8(len(data)), Data: data}.IsInputSet(start, addr)
+		v, err = packet.ReadDiscreteInputsResponse{UnitID: 1, InputsByteLength: bl, Data: data}.IsInputSet(start, addr)
 	} else {
-		v, err = packet.ReadDiscreteInputsResponse{UnitID: 1, InputsByteLength: uint8(len(data)), Data: data}.IsCoilSet(start, addr)
+		v, err = packet.ReadDiscreteInputsResponse{UnitID: 1, InputsByteLength: bl, Data: data}.IsCoilSet(start, addr)
 	}
 	if err != nil {
 		return errStr(err)
@@ -457,7 +551,26 @@ func execPacketOp(ts []string) (string, bool) {
 	case "iscoil":
 		return execIscoil(ts[1], unhx(ts[2]), uint16(atoi(ts[3])), uint16(atoi(ts[4]))), true
 	case "c2b":
-		return hx(packet.CoilsToBytes(bitsOf(ts[1]))), true
+		// the coils are a sub-slice of a longer slice of the caller (a pattern written in chunks): what follows them
+		// stays as it is
+		bits := bitsOf(ts[1])
+		full := make([]bool, len(bits)+24)
+		copy(full, bits)
+		for i := len(bits); i < len(full); i++ {
+			full[i] = true
+		}
+		out := hx(packet.CoilsToBytes(full[:len(bits)]))
+		for i := len(bits); i < len(full); i++ {
+			if !full[i] {
+				return "CALLER-SLICE-WRITTEN " + out, true
+			}
+		}
+		for i := range bits {
+			if full[i] != bits[i] {
+				return "CALLER-SLICE-WRITTEN " + out, true
+			}
+		}
+		return out, true
 	case "errbytes":
 		return execErrbytes(ts[1:]), true
 	case "cls":
